@@ -1,0 +1,165 @@
+//go:build verif
+
+// Add-only exports for the verification harness in /verif (property C08, second
+// wave): state-dependent gas functions on a stub StateDB, environment
+// instructions on an explicit environment, and the chain rules / write
+// protection NewEVM installs.  Compiled only with -tags verif.
+
+package vm
+
+import (
+	"math/big"
+	"strings"
+
+	"gitlab.com/aquachain/aquachain/common"
+	"gitlab.com/aquachain/aquachain/params"
+)
+
+type verifStateDB struct {
+	NoopStateDB
+	state       common.Hash
+	empty       bool
+	exist       bool
+	hasSuicided bool
+	balance     *big.Int
+	refund      uint64
+}
+
+func (s *verifStateDB) GetState(common.Address, common.Hash) common.Hash { return s.state }
+func (s *verifStateDB) Empty(common.Address) bool                        { return s.empty }
+func (s *verifStateDB) Exist(common.Address) bool                        { return s.exist }
+func (s *verifStateDB) HasSuicided(common.Address) bool                  { return s.hasSuicided }
+func (s *verifStateDB) GetBalance(common.Address) *big.Int               { return s.balance }
+func (s *verifStateDB) AddRefund(g uint64)                               { s.refund += g }
+func (s *verifStateDB) GetRefund() uint64                                { return s.refund }
+
+// VerifStateArgs is what the state-dependent gas functions read besides stack and memory.
+type VerifStateArgs struct {
+	Cfg          *params.ChainConfig // IsEIP150 / IsEIP158 at Block
+	Block        *big.Int
+	GT           params.GasTable
+	CurrentValue common.Hash // StateDB.GetState result (gasSStore)
+	AddrEmpty    bool        // StateDB.Empty(address)
+	AddrExist    bool        // StateDB.Exist(address)
+	HasSuicided  bool        // StateDB.HasSuicided(contract)
+	Balance      *big.Int    // StateDB.GetBalance(contract)
+	ContractGas  uint64      // contract.Gas
+}
+
+var verifStateGasFuncs = map[string]gasFunc{
+	"gasSStore": gasSStore, "gasCall": gasCall, "gasCallCode": gasCallCode, "gasDelegateCall": gasDelegateCall,
+	"gasStaticCall": gasStaticCall, "gasSuicide": gasSuicide, "gasBalance": gasBalance, "gasExtCodeSize": gasExtCodeSize,
+	"gasSLoad": gasSLoad,
+}
+
+// VerifGasState runs a state-dependent gas function.  Returns gas, new lastGasCost,
+// evm.callGasTemp, the refund added, and the error class (0 none, 1 errGasUintOverflow, 2 other, 3 unknown).
+func VerifGasState(name string, a VerifStateArgs, stackTopFirst []*big.Int, memLen, lastGasCost, memorySize uint64) (gas, newLast, callGasTemp, refund uint64, errClass int) {
+	f, ok := verifStateGasFuncs[name]
+	if !ok {
+		return 0, 0, 0, 0, 3
+	}
+	bal := a.Balance
+	if bal == nil {
+		bal = new(big.Int)
+	}
+	db := &verifStateDB{state: a.CurrentValue, empty: a.AddrEmpty, exist: a.AddrExist, hasSuicided: a.HasSuicided, balance: bal}
+	evm := &EVM{chainConfig: a.Cfg, StateDB: db}
+	evm.BlockNumber = a.Block
+	evm.interpreter = &Interpreter{evm: evm, intPool: newIntPool()}
+	contract := &Contract{Gas: a.ContractGas, self: AccountRef(common.Address{1}), caller: AccountRef(common.Address{2}), value: new(big.Int)}
+	st := newstack()
+	for i := len(stackTopFirst) - 1; i >= 0; i-- {
+		st.push(new(big.Int).Set(stackTopFirst[i]))
+	}
+	m := &Memory{store: make([]byte, memLen), lastGasCost: lastGasCost}
+	g, err := f(a.GT, evm, contract, st, m, memorySize)
+	switch err {
+	case nil:
+		return g, m.lastGasCost, evm.callGasTemp, db.refund, 0
+	case errGasUintOverflow:
+		return 0, m.lastGasCost, evm.callGasTemp, db.refund, 1
+	}
+	return 0, m.lastGasCost, evm.callGasTemp, db.refund, 2
+}
+
+// VerifEnv is the environment the simple environment instructions read.
+type VerifEnv struct {
+	Address, Caller, Origin, Coinbase             common.Address
+	CallValue, GasPrice, Time, Number, Difficulty *big.Int
+	GasLimit, Gas                                 uint64
+}
+
+// VerifExecFrameEnv is VerifExecFrame with an explicit environment.
+func VerifExecFrameEnv(table string, op byte, f VerifFrame, e VerifEnv) (out VerifFrame, errs string) {
+	tab := verifTable(table)
+	if tab == nil || !tab[op].valid {
+		return out, "invalid"
+	}
+	evm, c := verifProbeEnv(f.Code)
+	evm.Origin, evm.Coinbase, evm.GasPrice, evm.Time = e.Origin, e.Coinbase, e.GasPrice, e.Time
+	evm.BlockNumber, evm.Difficulty, evm.GasLimit = e.Number, e.Difficulty, e.GasLimit
+	c.self, c.caller, c.CallerAddress = AccountRef(e.Address), AccountRef(e.Caller), e.Caller
+	c.value, c.Gas = e.CallValue, e.Gas
+	c.Input = f.Input
+	evm.interpreter.returnData = f.ReturnData
+	st := newstack()
+	for i := len(f.Stack) - 1; i >= 0; i-- {
+		st.push(new(big.Int).Set(f.Stack[i]))
+	}
+	mem := &Memory{store: append(make([]byte, 0, len(f.Mem)), f.Mem...)}
+	pc := f.PC
+	func() {
+		defer func() {
+			if r := recover(); r != nil {
+				errs = "panic"
+			}
+		}()
+		_, err := tab[op].execute(&pc, evm, c, mem, st)
+		switch {
+		case err == nil:
+		case err == errReturnDataOutOfBounds:
+			errs = "returndata-oob"
+		case strings.HasPrefix(err.Error(), "invalid jump destination"):
+			errs = "invalid-jump"
+		default:
+			errs = "err"
+		}
+	}()
+	out.PC = pc
+	out.Mem = append([]byte{}, mem.store...)
+	for i := st.len() - 1; i >= 0; i-- {
+		out.Stack = append(out.Stack, new(big.Int).Set(st.data[i]))
+	}
+	return out, errs
+}
+
+// VerifChainRules returns the chain rules NewEVM stores for (config, block) and
+// what Interpreter.enforceRestrictions answers, in read-only mode, for a
+// state-writing instruction (SSTORE) and for a CALL that transfers value.
+func VerifChainRules(cfg *params.ChainConfig, num *big.Int) (rules params.Rules, sstoreProtected, callValueProtected bool) {
+	evm := NewEVM(Context{BlockNumber: num}, nil, cfg, Config{})
+	in := evm.interpreter
+	in.readOnly = true
+	st := newstack()
+	st.push(big.NewInt(0))
+	st.push(big.NewInt(0))
+	st.push(big.NewInt(1)) // Back(2) = value for CALL
+	st.push(big.NewInt(0))
+	st.push(big.NewInt(0))
+	sstoreProtected = in.enforceRestrictions(SSTORE, in.cfg.JumpTable[SSTORE], st) == errWriteProtection
+	callValueProtected = in.enforceRestrictions(CALL, in.cfg.JumpTable[CALL], st) == errWriteProtection
+	return evm.chainRules, sstoreProtected, callValueProtected
+}
+
+// VerifEnforceRestrictions evaluates Interpreter.enforceRestrictions for explicit inputs.
+func VerifEnforceRestrictions(isByzantium, readOnly bool, op byte, value *big.Int) bool {
+	evm := &EVM{}
+	evm.chainRules.IsByzantium = isByzantium
+	in := &Interpreter{evm: evm, readOnly: readOnly}
+	st := newstack()
+	st.push(new(big.Int).Set(value))
+	st.push(big.NewInt(0))
+	st.push(big.NewInt(0))
+	return in.enforceRestrictions(OpCode(op), springInstructionSet[op], st) == errWriteProtection
+}
